@@ -829,6 +829,10 @@ func grpcStatusFromError(err error) (*statusv1.Status, error) {
 		}
 		status.Details = details
 	}
+	// Error messages may quote arbitrary bytes, but a Protobuf string must be
+	// valid UTF-8: marshaling the status fails otherwise, and the peer gets an
+	// internal error in place of this one.
+	status.Message = strings.ToValidUTF8(status.Message, "\uFFFD")
 	return status, nil
 }
 
